@@ -38,6 +38,13 @@ type SKey struct {
 	B string
 }
 
+// LKey is a struct key that is not comparable with == (it holds a slice); like every struct key
+// it is ordered by its marshaled bytes.
+type LKey struct {
+	Tenant string
+	Path   []string
+}
+
 // SVal / LVal are struct values; LVal is uncomparable with == (holds a slice).
 type SVal struct {
 	X int
@@ -129,6 +136,10 @@ func (d *KeyDialect) mk(i int) interface{} {
 		}
 		return uint64(i) * 2
 	case "string":
+		if i%17 == 11 {
+			// long keys (hash computed over more than one 128-byte chunk)
+			return "k" + strconv.Itoa(i) + "/" + strings.Repeat("long-key-segment/", 9+i%7)
+		}
 		if i%9 == 4 {
 			// characters the JSON encoder escapes (<, >, &) and a non-ASCII rune
 			return "k" + strconv.Itoa(i) + "<&>\u00e9"
@@ -153,6 +164,8 @@ func (d *KeyDialect) mk(i int) interface{} {
 		return UKey{N: i, L: l}
 	case "struct":
 		return SKey{A: i % 7, B: "s" + strconv.Itoa(i)}
+	case "lstruct":
+		return LKey{Tenant: "t" + strconv.Itoa(i%3), Path: []string{"p" + strconv.Itoa(i), strconv.Itoa(i % 5)}}
 	}
 	panic("unknown key dialect " + d.Name)
 }
@@ -174,7 +187,7 @@ func (d *KeyDialect) lessConcrete(i, j int) bool {
 		return bytes.Compare(a.([]byte), b.([]byte)) < 0
 	case "userkey":
 		return a.(UKey).N < b.(UKey).N
-	case "struct":
+	case "struct", "lstruct":
 		ja, _ := json.Marshal(a)
 		jb, _ := json.Marshal(b)
 		return bytes.Compare(ja, jb) < 0
@@ -224,6 +237,8 @@ func (d *KeyDialect) Like() interface{} {
 		return UKey{}
 	case "struct":
 		return SKey{}
+	case "lstruct":
+		return LKey{}
 	}
 	panic("unknown key dialect")
 }
@@ -315,5 +330,5 @@ func (v *ValDialect) Distinct(i, j int) bool {
 	return i != j
 }
 
-var allKeyDialects = []string{"int", "int64", "uint", "uint64", "string", "bytes", "userkey", "struct"}
+var allKeyDialects = []string{"int", "int64", "uint", "uint64", "string", "bytes", "userkey", "struct", "lstruct"}
 var allValDialects = []string{"int", "string", "struct", "bytes", "lval", "ptr", "bigstr", "inf", "nil"}
